@@ -45,6 +45,7 @@ type oracle struct {
 	prevArch    *core.Entry
 	prevArchOK  bool
 	prevClean   bool // the previous cycle was fault-free and completed (status run)
+	agreedTop   int  // top-level entries the roots agreed on after the last completed cycle
 	cycles      int
 	fails       []string
 }
@@ -348,7 +349,10 @@ func (o *oracle) cycle(c *cycleObs) {
 	}
 
 	// ---- C11: a halted session changes nothing and stays halted ----
-	if strings.HasPrefix(c.status, "halt-") {
+	if c.step.Kind == 'h' && c.status != "halted" && !c.stillHalted {
+		o.failf("C11-not-halted", "a flush request on a session that halted and was not resumed was served (status %s)", c.status)
+	}
+	if strings.HasPrefix(c.status, "halt") {
 		if p, same := rawEqual(c.preA.raw, c.postA.raw); !same {
 			o.failf("C11-halted-cycle-changed-root", "the session halted (%s) but alpha changed at %q", c.status, p)
 		}
@@ -357,6 +361,31 @@ func (o *oracle) cycle(c *cycleObs) {
 		}
 		if !c.stillHalted {
 			o.failf("C11-not-halted", "the session halted (%s) but served a further flush request", c.status)
+		}
+	}
+	// A cycle never deletes an existing root and never changes its type,
+	// whatever the history (also on the first cycle, without any ancestor).
+	for _, r := range []struct {
+		name      string
+		pre, post *core.Entry
+	}{{"alpha", c.preA.tree, c.postA.tree}, {"beta", c.preB.tree, c.postB.tree}} {
+		if r.pre != nil && (r.post == nil || r.post.Kind != r.pre.Kind) {
+			o.failf("C11-root-change-propagated", "the cycle replaced the %s root %s by %s", r.name, fp(r.pre), hx.EncEntry(r.post))
+		}
+	}
+	// One root emptied while the two roots agreed on at least two top-level
+	// entries after the previous completed cycle (which the archive therefore
+	// records): the session halts and the other root keeps its content.
+	if o.agreedTop >= 2 && isDir(c.preA.tree) && isDir(c.preB.tree) &&
+		(len(c.preA.tree.Contents) == 0) != (len(c.preB.tree.Contents) == 0) {
+		intact, pre, post := "alpha", c.preA.raw, c.postA.raw
+		if len(c.preA.tree.Contents) == 0 {
+			intact, pre, post = "beta", c.preB.raw, c.postB.raw
+		}
+		if p, same := rawEqual(pre, post); !same {
+			o.failf("C11-root-emptying-propagated", "one root was emptied (the roots agreed on %d top-level entries) and the cycle modified %s at %q", o.agreedTop, intact, p)
+		} else if !strings.HasPrefix(c.status, "halt") && c.status != "cancelled" {
+			o.failf("C11-root-emptying-not-halted", "one root was emptied (the roots agreed on %d top-level entries) and the session did not halt (status %s)", o.agreedTop, c.status)
 		}
 	}
 	// A root that both roots last agreed to be a directory and that is now gone
@@ -380,6 +409,23 @@ func (o *oracle) cycle(c *cycleObs) {
 	}
 	o.prevArch, o.prevArchOK = c.archTree, c.archErr == nil
 	o.prevClean = clean
+	// Top-level entries both roots agree on after a completed cycle are recorded
+	// in the archive; a halted cycle leaves the archive as it was; after a
+	// cancelled or failed cycle nothing is claimed.
+	switch {
+	case c.status == "run":
+		o.agreedTop = 0
+		if isDir(c.postA.tree) && isDir(c.postB.tree) {
+			for n, e := range c.postA.tree.Contents {
+				if f := fp(e); f != "" && f == fp(c.postB.tree.Contents[n]) {
+					o.agreedTop++
+				}
+			}
+		}
+	case strings.HasPrefix(c.status, "halt"):
+	default:
+		o.agreedTop = 0
+	}
 }
 
 // Filter keeps the verdicts of one property ("" keeps all).
